@@ -362,7 +362,7 @@ pub fn run(tier: Tier, report: &mut Report, family_docs: &dyn Fn(&str) -> Vec<Do
         run_lit::<usize>(tier, report);
     }
     report.completed.push("value -> text -> value: small-scope circuits (I,L <= 2, gates <= 2/3, M exact or +1, latch next/reset forms, gate input patterns, list length patterns, justice shapes, symbols of every kind at first/last index with names {\"\", a, 'a b', UTF-8, c}, comment forms) through ascii write_aig, ascii write_ordered_aig and the binary writer; binary deltas of every byte length via implicit input counts".into());
-    let lits: Vec<&str> = tier.pick(vec!["u8", "u32"], crate::subjects::LITS.to_vec());
+    let lits: Vec<&str> = tier.pick(vec!["u8", "u32", "u16", "u64", "usize"], crate::subjects::LITS.to_vec());
     for format in ["aag", "aig"] {
         let docs = family_docs(format);
         let mut extra = Vec::new();
